@@ -21,6 +21,9 @@ RULE = (
     "update_all and bulk vs separate calls, (e) twin minerals: all byte-identical; (d) "
     "stateful interleaving: 2..4 minerals with their own update queues, executed in a "
     "generated interleaving vs each queue alone on fresh objects: byte-identical. "
+    "Minerals reach the updates as built, restored from an NPZ checkpoint (before the first "
+    "or after the first update) or with plain-integer phase/fabric/regime ordinals; the "
+    "restored run must equal the in-memory run. "
     "Non-trivial: both phases present with phi in (0,1), M*>0, and for (d) at least one "
     "switch between minerals; distinct = distinct canonical JSON."
 )
